@@ -69,6 +69,7 @@ class C08(Prop):
             yield self.structured(rng)
         for _ in range(600 if tier == "quick" else 20000):
             yield self.random_case(rng)
+        for c in self.self_loops(rng, tier): yield c
         # layers of twins: several vertices with the same successors and capacities, given once with one list per vertex and once sharing a single list object
         for i in range(60 if tier == "quick" else 1500):
             k = rng.randint(2, 4); k2 = rng.randint(1, 3)
@@ -81,6 +82,18 @@ class C08(Prop):
             for v in L2: G[v] = list(adj2)
             G[t] = []
             yield dict(entry="ford_fulkerson", family="twin_layers" + ("_shared" if i % 2 else ""), G=[[kk, a] for kk, a in G.items()], s=0, t=t, share=bool(i % 2))
+
+    def self_loops(self, rng, tier):
+        """networks in which some vertices carry an edge to themselves (useless for the flow, legal as input); outside the model's well-formedness predicate, so decided by the direct oracle only"""
+        for i in range(150 if tier == "quick" else 3000):
+            c = self.structured(rng) if i % 3 == 0 else self.random_case(rng)
+            G = [[k, [list(e) for e in a]] for k, a in c["G"]]
+            if not G: continue
+            for _ in range(rng.randint(1, 3)):
+                row = rng.choice(G)
+                if all(v != row[0] for v, _ in row[1]):
+                    row[1].insert(rng.randint(0, len(row[1])), [row[0], rng.randint(1, 3)])
+            yield dict(c, G=G, family="self_loop")
 
     def structured(self, rng):
         kind = rng.choice(["bip", "maxsize", "revisit", "opp"])
@@ -229,6 +242,7 @@ class C08(Prop):
 
     def coq(self, case, obs):
         G = case["G"]
+        if any(v == k for k, a in G for v, _ in a): return None      # self-loop: outside wf_in
         g = cl([ct(cz(k), cl([ct(cz(v), cz(c)) for v, c in a])) for k, a in G])
         fl = cl([ct(ct(cz(u), cz(v)), cz(x)) for u, v, x in obs["flow"]])
         return ("ff", ct(g, cz(case["s"]), cz(case["t"]), cn(obs["fuel"]), fl, cl([cz(v) for v in obs["cut"]])))
